@@ -105,17 +105,26 @@ def dial_events(ctx, rng):
 
                 def factory(world, sock, address):
                     return HeadPeer(world, dict(OKHEAD), None)
-                w = World(resolver={"*": addrs}, outcomes=outcomes, peer_factory=factory)
+                # reused: the object has had a conversation before during which the transport's timeout was changed directly
+                # (ws.sock.settimeout) - the configured timeout is still what every new socket gets
+                reused = timeout is not None and len(os_) <= 2 and bool(useropts)
+                w = World(resolver={"earlier.test": ["10.0.9.9"], "*": addrs}, outcomes=outcomes, peer_factory=factory)
                 exc = None
+                nsock0 = 0
                 with w:
                     ws = websocket.WebSocket(sockopt=useropts)
                     ws.settimeout(timeout)
+                    if reused:
+                        ws.connect("ws://earlier.test/")
+                        ws.sock.settimeout(None)
+                        ws.close(timeout=0)
+                        nsock0 = len(w.sockets)
                     try:
                         ws.connect("ws://multi.test/")
                     except Exception as e:
                         exc = e
                 tried = []
-                for s in w.sockets:
+                for s in w.sockets[nsock0:]:
                     evs = [e for e in w.log if e.get("sock") == s.id]
                     conn = [k for k, e in enumerate(evs) if e["ev"] == "tconnect"]
                     before = evs[:conn[0]] if conn else evs
@@ -129,9 +138,9 @@ def dial_events(ctx, rng):
                                   "user": all(tuple(int(x) for x in u) in opts for u in useropts),
                                   "closed": s.closed})
                 if exc is None:
-                    result = {"kind": "ok", "idx": (w.sockets.index(ws.sock) + 1) if ws.sock in w.sockets else 0}
+                    result = {"kind": "ok", "idx": (w.sockets[nsock0:].index(ws.sock) + 1) if ws.sock in w.sockets[nsock0:] else 0}
                 else:
-                    idx = [i + 1 for i, s in enumerate(w.sockets) if s.last_exc is exc]
+                    idx = [i + 1 for i, s in enumerate(w.sockets[nsock0:]) if s.last_exc is exc]
                     result = {"kind": "raise", "idx": idx[0] if idx else 0, "cls": type(exc).__name__}
                 ev.append({"ev": "dial", "outcomes": list(os_), "tried": tried, "result": result,
                            "timeout": -1 if timeout is None else timeout, "useropts": len(useropts)})
@@ -147,6 +156,33 @@ def dial_events(ctx, rng):
             ctx.remark("EHOSTUNREACH on the first address aborts the attempt (only ECONNREFUSED/ENETUNREACH fall through); "
                        "'unreachable' is read as ENETUNREACH (DESIGN 4.0), not judged")
     return ev
+
+
+def app_default_timeout(ctx):
+    """Through a reconnecting WebSocketApp: the default timeout in force when a socket is created is the one it gets - also when
+    the application changes it (setdefaulttimeout) between two attempts of the same run."""
+    from .. import appworld
+    n = 0
+    for first in ("eof", "refused"):
+        for new in (5.0, 0.5):
+            conn0 = {"accept": False} if first == "refused" else {"events": [(100, ("text", "a")), (100, ("eof",))]}
+            sc = {"tid": "c18app", "conns": [conn0, {"events": [(100, ("close", 1000, b""))]}], "run": {"reconnect": 1},
+                  "actions": {"error": ["deftimeout:%s" % new]}, "horizon": 60000}
+            log, _ = appworld.run_app(sc)
+            n += 1
+            ctx.case(("app_default_timeout", first, new))
+            ctx.traces += 1
+            conns = [e for e in log if e["ev"] == "tconnect"]
+            if len(conns) < 2:
+                ctx.machinery_error = "C18 app scenario made %d attempts" % len(conns)
+                continue
+            second = conns[1]
+            before = [e["value"] for e in log[:log.index(second)] if e["ev"] == "tsettimeout" and e.get("sid") == second.get("sid")]
+            if new not in before:
+                ctx.deviation(None, "WebSocketApp, reconnect=1, the application calls setdefaulttimeout(%s) in on_error after the first attempt (%s): "
+                              "the socket of the second attempt was given the timeouts %s before connecting" % (new, first, before),
+                              {"clause": "C18.timeout_not_applied_to_every_socket", "first": first, "new_default": new, "timeouts": before})
+    ctx.notes["app_default_timeout"] = n
 
 
 def judge_batch(ctx, pid, ev, tag):
@@ -189,6 +225,7 @@ def main(ctx):
                       {"event": e, "faults": faults})
     for e in dv:
         ctx.case(("dial", tuple(e["outcomes"]), e["timeout"], e["useropts"]))
+    app_default_timeout(ctx)
     ctx.sample(ev[len(ev) // 2])
     ctx.sample(dv[len(dv) // 2])
     ctx.notes["urls"] = len(ev)
